@@ -5,7 +5,7 @@ from vlib import Check, Broken, tlc, tlc_must_pass
 
 SPECDIR = os.path.join(vlib.SPECS, "seq")
 OPS = ["?", "push_back", "push_fore", "insert", "pull_back", "pull_fore", "remove", "store", "erase", "setn", "setm",
-       "setz", "sort", "sort_fore", "sort_back", "push_sort", "search", "at", "of", "top", "create", "walk"]
+       "setz", "sort", "sort_fore", "sort_back", "push_sort", "search", "at", "of", "top", "create", "walk", "push", "pull"]
 CASES = ["none", "spare-capacity-path", "exactly-full-path", "growth", "refused", "index-beyond-end", "empty"]
 
 
@@ -75,7 +75,7 @@ def run(pid, tier, replay=None):
     files = []
     nb = 14
     exhaustive = True
-    opcount = [0] * 22
+    opcount = [0] * 24
     casecount = [0] * 8
     for name, c in configs(tier):
         cfg = write_mc_cfg(sc.path("SeqMC-%s.cfg" % name), c)
@@ -98,9 +98,9 @@ def run(pid, tier, replay=None):
             if res.generated - res.init_states != summ["edges"]:
                 raise Broken("emitted %d transitions but replayed %d (%s)" % (res.generated - res.init_states, summ["edges"], name))
         files += glob.glob(sc.path("g-%s-*.ndjson" % name))
-    ck.part("coverage_by_operation", **{OPS[i]: n for i, n in enumerate(opcount) if i and i < 22})
+    ck.part("coverage_by_operation", **{OPS[i]: n for i, n in enumerate(opcount) if i and i < 24})
     ck.part("coverage_by_case", **{CASES[i]: n for i, n in enumerate(casecount) if i < len(CASES)})
-    missing = [OPS[i] for i in range(1, 22) if opcount[i] == 0] + [CASES[i] for i in range(1, 7) if casecount[i] == 0]
+    missing = [OPS[i] for i in range(1, 24) if opcount[i] == 0] + [CASES[i] for i in range(1, 7) if casecount[i] == 0]
     if missing:
         raise Broken("vacuity: never exercised: %s" % missing)
     files = vlib.drop_partial_lines(sorted(files))
